@@ -4729,7 +4729,10 @@ def parseNestedParens(s, handleLiteral=1):
     @raise MismatchedNesting: Raised if the number or placement
     of opening or closing parenthesis is invalid.
     """
-    s = s.strip()
+    # Only leading whitespace can be removed up front: the string may end
+    # with a literal, whose bytes are significant.  (Whitespace between and
+    # after items is discarded when the items are split.)
+    s = s.lstrip()
     inQuote = 0
     contentStack = [[]]
     try:
